@@ -85,6 +85,12 @@ func (e *Enc) call(fr *Frame, v *ssa.Call, cc *ssa.CallCommon, st *State, reach 
 		return
 	}
 	key := callee.String()
+	if key == "(*sync.Once).Do" && len(cc.Args) == 2 {
+		if mc, ok := cc.Args[1].(*ssa.MakeClosure); ok {
+			e.onceDo(fr, mc, args[0], st, reach, pos)
+			return
+		}
+	}
 	if c := e.w.CS.Funcs[key]; c != nil && !c.Inline {
 		rs := e.applyContract(fr, c, key, args, argTypes, sig, st, reach, pos)
 		e.setResults(fr, res, sig, rs)
@@ -359,8 +365,14 @@ func (e *Enc) builtin(fr *Frame, v *ssa.Call, b *ssa.Builtin, cc *ssa.CallCommon
 	case "recover":
 		fr.vals[v] = e.freshTyped("recover", v.Type(), reach, st)
 	case "close":
-		// ghost-modelled by contracts where needed
-		e.noteAssume("close(chan) not modelled in " + fr.fn.Name())
+		if e.w.CS.Ghosts["chclosed"] != nil {
+			key, srt := e.ghostKey("chclosed")
+			ch := e.val(fr, cc.Args[0])
+			e.safe(fr, "close", reach, and(not(eq(ch, Term{"0", SInt})), not(sel(e.heapGet(st, key), ch, srt))), pos)
+			e.heapSet(st, key, store(e.heapGet(st, key), ch, tTrue))
+		} else {
+			e.noteAssume("close(chan) not modelled in " + fr.fn.Name())
+		}
 	case "min", "max":
 		a, b2 := e.val(fr, cc.Args[0]), e.val(fr, cc.Args[1])
 		if a.Sort == SInt {
@@ -1046,4 +1058,27 @@ func (e *Enc) storeKeys(addr ssa.Value, keys map[string]bool) {
 			}
 		}
 	}
+}
+
+// onceDo models (*sync.Once).Do(f) for a closure f created in the calling function: f runs iff the ghost flag
+// oncedone[o] is false, and the flag is true afterwards.
+func (e *Enc) onceDo(fr *Frame, mc *ssa.MakeClosure, once Term, st *State, reach Term, pos string) {
+	if e.w.CS.Ghosts["oncedone"] == nil {
+		e.problem("sync.Once.Do needs ghost oncedone")
+		e.havocAll(st)
+		return
+	}
+	key, srt := e.ghostKey("oncedone")
+	done := e.def("oncedone", sel(e.heapGet(st, key), once, srt))
+	fn := mc.Fn.(*ssa.Function)
+	run := e.def("once_run", and(reach, not(done)))
+	cp := st.clone()
+	bind := map[*ssa.FreeVar]ssa.Value{}
+	for i, fv := range fn.FreeVars {
+		bind[fv] = mc.Bindings[i]
+	}
+	e.inline(fr, fn, nil, cp, run, pos, bind)
+	e.heapSet(cp, key, store(e.heapGet(cp, key), once, tTrue))
+	m := e.mergeStates([]Term{not(done), done}, []*State{cp, st})
+	st.heaps, st.base = m.heaps, m.base
 }
